@@ -208,6 +208,28 @@ def rule_fresh(check):
         check.expect(callers <= allowed, R, key, hir.loc(sites[0][1]), "%s::%s constructed in %s" % (ty.split("::")[-1], name, sorted(callers)), "%s::%s is constructed in %s (reviewed: %s)" % (ty, name, sorted(callers), sorted(allowed)))
 
 
+def rule_compiler_of_this_call(check):
+    """COMPILER-SCOPE (C09, C10, C16): extract_source_map scans *all* comments of the compiler it is given
+    and the printer resolves positions in that compiler's source map, so both must belong to this call."""
+    R = "COMPILER-SCOPE"
+    check.rule(R, "the swc Compiler (source map + comment store) handed to parse_js / transform_js is created by Compiler::new inside the very rewrite_js activation: a compiler that outlives the call keeps the comments (sourceMappingURL of earlier files) and the source text of earlier files")
+    prog = check.prog
+    rj = prog.fn("rewriter::rewrite_js")
+    pv = Prov(prog)
+    sites = [(rj, n) for n in hir.calls_in(rj.body) if hir.callee_name(n) in ("parse_js", "transform_js") and prog.resolve_local(n) is not None]
+    check.floor(R, "parse/transform calls in rewrite_js", len(sites), 2)
+    for g, n in sites:
+        tgt = prog.resolve_local(n)
+        idx = [i for i, p_ in enumerate(tgt.rec["params"]) if "Compiler" in (p_.get("ty") or "")] if tgt is not None else []
+        if not idx:
+            check.bad(R, "%s/%s" % (R, hir.callee_name(n)), hir.loc(n), "cannot find the compiler argument of %s" % hir.callee_name(n))
+            continue
+        os_ = pv.origins(g, hir.call_args(n)[idx[0]])
+        fresh = bool(os_) and all(r[0] == "call" and r[1].split("<")[0].endswith("Compiler::new") for r, p_ in os_)
+        local = fresh and all(r[2] == rj.def_path or (prog.by_def.get(r[2]) is not None and any(prog.resolve_local(c) is prog.by_def[r[2]] for c in hir.calls_in(rj.body))) for r, p_ in os_)
+        check.expect(fresh and local, R, "%s/%s" % (R, hir.callee_name(n)), hir.loc(n), "compiler argument = Compiler::new(..) of this activation", "%s receives a compiler that is not created in this call (%s): comments and sources of earlier files are still in it" % (hir.callee_name(n), sorted(origin_str(o) for o in os_)))
+
+
 def rule_prefix_once(check):
     R = "PREFIX-ONCE"
     check.rule(R, "the random variable prefix is drawn only in to_config, which runs only in Rewriter::new")
@@ -257,7 +279,7 @@ def rule_nondet(check, reach):
             check.ok(R, k, hir.loc(nodes[0]), "reviewed: %s" % why)
         else:
             check.bad(R, k, hir.loc(nodes[0]), "unreviewed nondeterminism source: %s.%s over/into %s" % key)
-    check.floor(R, "nondeterminism sources found", len(found), 5)
+    check.floor(R, "nondeterminism sources found", len(found), 1)
 
 
 def run(check):
@@ -270,6 +292,7 @@ def run(check):
     check.guarded("OWNED-STATE", rule_owned)
     check.guarded("PER-CALL-FRESH", rule_fresh)
     check.guarded("PREFIX-ONCE", rule_prefix_once)
+    check.guarded("COMPILER-SCOPE", rule_compiler_of_this_call)
     check.guarded("NONDET-INVENTORY", lambda c: rule_nondet(c, reach[0] if reach else set()))
     return {
         "explanation": "Inventory and type-level rules: statics and their users against the call graph from rewrite; rustc type queries (Freeze, deep ownership walk) on Rewriter/Config; borrow kinds of the configuration on every function reachable from rewrite; who-constructs rules for per-call state; who-calls rules for the random prefix; inventory of nondeterminism sources.",
